@@ -392,7 +392,15 @@ func VerifC03_StalledConsumerAtShutdown() {
 		buf.Accept(base.LogChunk{ID: verifIDs[i], Data: append([]byte{}, datas[i]...)})
 		sym.Yield()
 	}
-	buf.Destroy() // the feeder cannot finish (it waits for the consumer); Destroy gives up after its timeout
+	// the feeder cannot finish (it waits for the consumer); Destroy gives up after its timeout - once
+	destroyed := make(chan struct{})
+	go func() { buf.Destroy(); close(destroyed) }()
+	select {
+	case <-destroyed:
+	case <-time.After(defs.BufferShutDownTimeout + 2*defs.IntermediateChannelTimeout):
+		sym.Assert(false, "Destroy returns within the shutdown bound (BufferShutDownTimeout + IntermediateChannelTimeout) even when a consumer never finishes")
+		return
+	}
 	dropped := int(m.CounterValue("dropped_chunks_total", "hybridBuffer"))
 	files := 0
 	for i := 0; i < k; i++ {
